@@ -59,7 +59,7 @@ def run(prop, tier, seed, replay=None):
                 with open(sf, "w") as f:
                     for s in cli[w::ncw]:
                         f.write(json.dumps(s) + "\n")
-                jobs.append(["params", "-bin", binary, "-scenarios", sf, "-out", os.path.join(work, "clirec-%d.ndjson" % w)])
+                jobs.append(["params", "-bin", binary] + (["-dying", "4" if q else "12"] if w == 0 else []) + ["-scenarios", sf, "-out", os.path.join(work, "clirec-%d.ndjson" % w)])
         elif json.load(open(replay))["replay"].get("cli"):
             binary = vp.build_binary(os.path.join(work, "blackdagger"))
             jobs = [["params", "-bin", binary, "-scenarios", jobs[0][2], "-out", os.path.join(work, "clirec-0.ndjson")]]
@@ -72,7 +72,7 @@ def run(prop, tier, seed, replay=None):
             for j in jobs:
                 with open(j[-1]) as f:
                     for line in f:
-                        if '"kind":"cli"' in line:
+                        if '"kind":"cli"' in line or '"kind":"dying"' in line:
                             ncli += 1
                         elif '"kind":"stop"' in line:
                             nrun += 1
@@ -91,6 +91,9 @@ def run(prop, tier, seed, replay=None):
                     ndrift += 1
                     if ndrift <= 5:
                         rep.drift.append("spec=Params tokenizer: input=%s real=%s model=%s" % (r["in"], r["out"], v["model"]))
+                    continue
+                if r.get("kind") == "dying":
+                    rep.violation({"clause": c, "dyingAgent": True, "cut": r["cut"]}, {"dying": {k: r.get(k) for k in ("id", "cut", "restartOk", "runsRecorded", "run2", "run2Params", "probe")}})
                     continue
                 s = r["sc"]
                 bad_vars = sorted({b for p in r["probes"].values() for b in p["bad"]})
@@ -111,7 +114,7 @@ def run(prop, tier, seed, replay=None):
                                 "given at start or as the DAG's default, x 13 output payload classes (blanks, padding to trim, newlines, quotes, '=', literal $VAR, backslashes, UTF-8, empty, 4096 and 70000 bytes); "
                                 "every run is started through the real loader + agent and then retried as cmd/retry.go does; consumers: adjacent step, exit handler, non-adjacent step and handler in the retry; "
                                 "stop runs: the producing step repeats and the run is stopped while its second iteration executes - the iteration's output must reach the exit handler and the retry; "
-                                "cli: the first scenarios again through the real binary: client.Start (start -p \"...\"), restart while running, retry of the canceled run; "
+                                "cli: the first scenarios again through the real binary: client.Start (start -p \"...\"), restart while running, retry of the canceled run; restart against an agent that dies while answering the status query (the real status server's bytes, cut at 2 / 25 / 50 / 97 %%); "
                                 "tokenizer: every string over {word char, blank, quote, equals, backslash} up to length %s through the real parser vs the TLA+ transcription" % ("6" if q else "8"),
                         "samples": samples, "exhaustive": False})
         rep.assumptions += ["value fidelity is checked on a class alphabet, not on all strings (DESIGN.md section 6)",
